@@ -228,6 +228,7 @@ _let = re.compile(r'^\s+let (?:mut )?_(\d+): (.*);$')
 def parse_file(path):
     """Return dict name -> Function, list in order."""
     funcs = {}
+    allocs = {}
     with open(path, 'r', errors='surrogateescape') as f:
         lines = f.read().split('\n')
     i = 0
@@ -248,6 +249,26 @@ def parse_file(path):
             if fn is not None:
                 funcs[fn.name] = fn
             i = j + 1
+        elif line.startswith('alloc') and line.endswith('{'):
+            m = re.match(r'^alloc(\d+) \((?:static: ([^,]+), )?size: (\d+), align: (\d+)\) \{$', line)
+            j = i + 1
+            data = []
+            ok = True
+            while j < n and lines[j] != '}':
+                t = lines[j]
+                if '\u2502' in t:
+                    segs = t.split('\u2502')
+                    hexpart = segs[1] if len(segs) >= 3 else segs[0]
+                    for tok in hexpart.split():
+                        if re.fullmatch(r'[0-9a-f]{2}', tok):
+                            data.append(int(tok, 16))
+                        else:
+                            ok = False
+                j += 1
+            if m and int(m.group(1)) not in allocs:
+                allocs[int(m.group(1))] = {'static': m.group(2), 'size': int(m.group(3)),
+                                            'bytes': data if ok and len(data) == int(m.group(3)) else None}
+            i = j + 1
         elif line.startswith('const ') and line.endswith(';') and ' = const ' in line:
             m = re.match(r'^const (.*?): (.*?) = const (.*);$', line)
             if m:
@@ -259,6 +280,7 @@ def parse_file(path):
             i += 1
         else:
             i += 1
+    funcs['$allocs'] = allocs
     return funcs
 
 
